@@ -34,6 +34,8 @@ type C18Case struct {
 	PAR   string     `json:"par,omitempty"`
 	DrawW float64    `json:"draw_w,omitempty"`
 	DrawH float64    `json:"draw_h,omitempty"`
+	// refs
+	Refs *c18RefDoc `json:"refs,omitempty"`
 }
 
 var c18Nums = []float64{0, 1, 2, 5, 10, 20, 30, 50, 100, -1, -5, -10, -20, 0.5, 2.5, -0.5, 7.25, 12.75, 0.125, 3}
@@ -170,6 +172,10 @@ func c18GenPath(t *rapid.T) ([]C18Cmd, string) {
 func c18Gen(t *rapid.T, tier Tier) interface{} {
 	c := &C18Case{}
 	switch rapid.IntRange(0, 9).Draw(t, "family") {
+	case 9:
+		c.Kind = "refs"
+		c.Refs = c18GenRefs(t)
+		return c
 	case 0:
 		c.Kind = "shape"
 		c.Shape = rapid.SampledFrom([]string{"rect", "rect", "circle", "ellipse", "line", "polyline", "polygon"}).Draw(t, "shape")
@@ -460,6 +466,8 @@ func c18CheckArc(a c18Arc, got []c18Seg, i int) (int, string) {
 func c18Check(ci interface{}) Verdict {
 	c := ci.(*C18Case)
 	switch c.Kind {
+	case "refs":
+		return c18Refs(c)
 	case "path":
 		return c18Path(c)
 	case "shape":
@@ -839,6 +847,6 @@ func init() {
 			"shape (10%): rect (rx/ry defaulting and clamping, zero sizes), circle, ellipse, line, polyline, polygon (odd coordinate counts) against the outlines of SVG 9. viewbox (10%): viewBox x width/height x the 9 alignments x meet/slice/none: a probe line along the viewBox diagonal must land where SVG 7.8 / 7.11 place the viewBox corners. " +
 			"Non-trivial: a path of >= 3 commands of >= 2 kinds; any drawn shape; a viewBox whose aspect ratio differs from the viewport's.",
 		ImportantLabels: []string{"cmd:S", "cmd:s", "cmd:T", "cmd:t", "cmd:A", "cmd:a", "cmd:Z", "cmd:m", "cmd:Q", "cmd:H", "cmd:v", "implicit-repetition", "exponent-number", "shape:rect", "rounded", "shape:polygon", "viewbox", "mos:slice"},
-		Assumptions:     []string{"reference graphs (use, gradients, patterns, markers, clip paths, masks with missing or cyclic ids) are exercised by C01 / C07 (termination); here only geometry is judged"},
+		Assumptions:     []string{"reference graphs among defs (use, gradients, patterns, markers, clip paths, masks; repeated, missing and cyclic ids) are judged by one relation: a reference pointed at an identical copy of its definition draws the same calls (definitions on a ring only have to return); termination on hostile graphs is also exercised by C01 / C07"},
 	})
 }
